@@ -121,7 +121,7 @@ def work(item):
     quick = tier != 'thorough'
     name = 'stdnum.' + row['src']
     m = mods[name]
-    values, st = e2.valid_set(name, m, tier, nseeds=10 if quick else 60, cap=600 if quick else 20000, depth=1 if quick else 2)
+    values, st = e2.valid_set(name, m, tier, nseeds=10 if quick else 60, cap=600 if quick else 5000, depth=1 if quick else 2)
     extra = set()
     for v in values[:300 if quick else 5000]:
         for t in (v[:-1], v[1:], v[:-4], v[4:], '0' + v, v + '0'):
